@@ -36,11 +36,19 @@ Success(rc) == RcClass(rc) = "success"
 SeqSet(s) == {s[i] : i \in DOMAIN s}
 
 (* C01 *)
+\* F15: the plan stopped declaring a static file that a step still uses; the step is recycled
+\* as SUCCEEDED with a detached input, where a build from scratch leaves it PENDING (rc 16)
+DoneOnWithdrawnInput(db) ==
+  \E s \in Steps(db) : ~db.nodes[s].detached /\ db.nodes[s].sstate = "SUCCEEDED"
+     /\ \E f \in Keys(db) : db.nodes[f].kind = "file" /\ db.nodes[f].detached /\ <<f, s>> \in Deps(db)
 IncrEqScratch(e) ==
   IF Success(e.b.rc)
   THEN (IF Success(e.a.rc) THEN CanonDiff(e.a.state, e.a.disk, e.b.state, e.b.disk)
         ELSE {<<"incremental_build_not_successful", e.a.rc>>})
-  ELSE IF RcClass(e.a.rc) # RcClass(e.b.rc) THEN {<<"rc_class_differs", <<e.a.rc, e.b.rc>>>>}
+  ELSE IF RcClass(e.a.rc) # RcClass(e.b.rc)
+       THEN {<<"rc_class_differs", <<e.a.rc, e.b.rc>>,
+               IF Success(e.a.rc) /\ RcClass(e.b.rc) = "pending" /\ DoneOnWithdrawnInput(e.a.state)
+               THEN "F15-step-done-on-withdrawn-static-input" ELSE "">>}
   ELSE {}
 
 (* C02 *)
@@ -92,7 +100,12 @@ ConeFix(e, X, ex, E) ==
                 \/ GlobHit(e.a.state, s, X) \/ GlobHit(e.b.state, s, X)
                 \/ \E t \in E : \E f \in Keys(e.a.state) \cup Keys(e.b.state) :
                        <<t, f>> \in UDeps(e) /\ <<f, s>> \in UDeps(e)
-                \/ UCreator(e, s) \cap E # {}}
+                \/ UCreator(e, s) \cap E # {}
+                \* not a rerun: a step without a result before the rebuild (an optional step that
+                \* was never built or was reverted) whose output an executed step now consumes
+                \/ /\ ~(s \in Keys(e.a.state) /\ e.a.state.nodes[s].sstate = "SUCCEEDED")
+                   /\ \E t \in E : \E f \in Keys(e.a.state) \cup Keys(e.b.state) :
+                          <<s, f>> \in UDeps(e) /\ <<f, t>> \in UDeps(e)}
   IN IF nxt = E THEN E ELSE ConeFix(e, X, ex, nxt)
 Cone(e) ==
   LET X == SeqSet(e.info.edited)
@@ -104,7 +117,11 @@ Cone(e) ==
 CrashEquiv(e) ==
   (IF RcClass(e.a.rc) # RcClass(e.b.rc) THEN {<<"restart_outcome_differs", <<e.a.rc, e.b.rc>>>>} ELSE {})
   \cup (IF Success(e.a.rc) /\ Success(e.b.rc)
-        THEN CanonDiff(e.a.state, e.a.disk, e.b.state, e.b.disk) ELSE {})
+        THEN {IF c[1] = "output_content_differs" /\ c[2] \in SeqSet(e.info.lost_queue)
+                    /\ c[2] \notin DOMAIN e.b.disk.files
+                 \* F5 seen through the declared (PLANNED) output of a reverted step
+                 THEN <<c[1], c[2], "F5-cleanup-queue-lost-in-crash">> ELSE c :
+              c \in CanonDiff(e.a.state, e.a.disk, e.b.state, e.b.disk)} ELSE {})
   \cup (IF Success(e.a.rc) /\ Success(e.b.rc)
         THEN {<<"leftover_file_after_restart", p,
                  \* F5: the file was queued for removal in memory only when the process died
